@@ -240,7 +240,7 @@ Section RKNImplicit.
   Qed.
 End RKNImplicit.
 
-(* ------------------------------------------------------------ non-vacuity and the refuted clause *)
+(* ------------------------------------------------------------ non-vacuity and the regression fact *)
 From Coq Require Import ZArith QArith Qcanon.
 
 (* the hypotheses of rkn_velocity_verlet_form are satisfiable on a non-trivial instance (Z, one component,
